@@ -195,6 +195,14 @@ pub trait MetadataClient: Send + Sync {
         Ok(0)
     }
 
+    /// IDs of the new shards of every split that is in its dual-write or backfill phase.
+    ///
+    /// During those phases each row held by such a shard is a copy of a row the shard
+    /// being split still holds, so readers leave these shards out.
+    async fn active_split_new_shards(&self) -> Result<Vec<String>> {
+        Ok(Vec::new()) // Default: no splits active
+    }
+
     /// Check if any shard split is currently in dual-write or backfill phase.
     ///
     /// Used by the query engine to enable deduplication when overlapping
